@@ -41,6 +41,14 @@ fn key_of(short: &str) -> String {
 
 /// library specification, JSON: {short, imports:[short], health, delivery, start, k, fault, renames:bool, cut, variant}
 pub fn lib_source(spec: &Value) -> String {
+    if spec["bare"].as_bool().unwrap_or(false) {
+        // a library without any import declaration: its environment is empty but for its own
+        // definitions, whatever the importer has
+        return format!(
+            "(define-library (lib bare)\n  (export bare-secret bare-get bare-set! bare-car)\n  (begin\n    (define kept {})\n    (define (bare-secret) secret)\n    (define (bare-get) kept)\n    (define (bare-set! v) (set! kept v) v)\n    (define (bare-car) car)))\n",
+            spec["start"].as_i64().unwrap_or(0)
+        );
+    }
     let s = spec["short"].as_str().unwrap();
     let imports: Vec<String> = spec["imports"]
         .as_array()
@@ -49,7 +57,13 @@ pub fn lib_source(spec: &Value) -> String {
     let renames = spec["renames"].as_bool().unwrap_or(false);
     let mut import_sets = vec!["(scheme base)".to_string()];
     for j in &imports {
-        import_sets.push(key_of(j));
+        // dependencies are imported directly or through an import-set operator
+        import_sets.push(match dep_style(spec, j) {
+            1 => format!("(prefix {} {}:)", key_of(j), j),
+            2 => format!("(only {} next-{}!)", key_of(j), j),
+            3 => format!("(rename {} (next-{}! nx-{}))", key_of(j), j, j),
+            _ => key_of(j),
+        });
     }
     let mut exports = vec![format!("next-{}!", s)];
     if renames {
@@ -73,7 +87,7 @@ pub fn lib_source(spec: &Value) -> String {
     for j in &imports {
         // only meaningful when the dependency is healthy; harmless otherwise
         exports.push(format!("via-{}-{}", s, j));
-        body.push(format!("(define (via-{}-{}) (next-{}!))", s, j, j));
+        body.push(format!("(define (via-{}-{}) ({}))", s, j, dep_next_name(spec, j)));
     }
     // export renames whose external name is also bound inside the library, and a swap
     if spec["collide"].as_bool().unwrap_or(false) {
@@ -90,7 +104,7 @@ pub fn lib_source(spec: &Value) -> String {
     exports.push(format!("(rename k const-{})", s));
     body.push(format!("(define k {})", 700 + spec["k"].as_i64().unwrap_or(1)));
     if let Some(j) = reexport_target(spec) {
-        exports.push(format!("(rename next-{}! bump-{}-from-{})", j, j, s));
+        exports.push(format!("(rename {} bump-{}-from-{})", dep_next_name(spec, &j), j, s));
     }
     if spec["health"].as_str() == Some("faulting-body") {
         let fault = spec["fault"].as_str().unwrap_or("(car 5)");
@@ -108,6 +122,24 @@ pub fn lib_source(spec: &Value) -> String {
         exports.join(" "),
         body.join("\n    ")
     )
+}
+
+/// how library `spec` imports its dependency `j`: 0 direct, 1 prefix, 2 only, 3 rename
+fn dep_style(spec: &Value, j: &str) -> u64 {
+    let s = spec["short"].as_str().unwrap_or("");
+    if j == s {
+        return 0; // a self-import stays plain
+    }
+    let base = spec["dep_style"].as_u64().unwrap_or(0);
+    (base + j.as_bytes().first().copied().unwrap_or(0) as u64) % 4
+}
+
+fn dep_next_name(spec: &Value, j: &str) -> String {
+    match dep_style(spec, j) {
+        1 => format!("{}:next-{}!", j, j),
+        3 => format!("nx-{}", j),
+        _ => format!("next-{}!", j),
+    }
 }
 
 fn reexport_target(spec: &Value) -> Option<String> {
@@ -374,6 +406,7 @@ fn gen_lib(rng: &mut Rng, short: &str, imports: Vec<String>, health: &str, allow
         "renames": rng.chance(1, 2),
         "reexport": rng.chance(1, 2),
         "collide": rng.chance(1, 2),
+        "dep_style": rng.below(4),
         "fault": fault,
         "fault_kind": fault_kind,
         "cut": rng.below(10_000),
@@ -388,6 +421,14 @@ struct Visible {
 }
 
 fn external_names(spec: &Value) -> Vec<(String, String)> {
+    if spec["bare"].as_bool().unwrap_or(false) {
+        return vec![
+            ("bare-secret".to_string(), "peek-secret".to_string()),
+            ("bare-get".to_string(), "look".to_string()),
+            ("bare-set!".to_string(), "use-helper".to_string()),
+            ("bare-car".to_string(), "peek-secret".to_string()),
+        ];
+    }
     let s = spec["short"].as_str().unwrap();
     let mut v = vec![
         (format!("next-{}!", s), "next".to_string()),
@@ -431,6 +472,14 @@ pub fn generate_c13(seed: u64, quick: bool) -> Value {
         }
         libs.push(gen_lib(&mut rng, &shorts[i], imports, "healthy", true));
     }
+    if rng.chance(1, 2) {
+        libs.push(json!({
+            "short": "bare", "bare": true, "imports": [], "health": "healthy",
+            "delivery": if rng.chance(1, 3) { "registered" } else { "file" },
+            "start": rng.range(0, 50),
+        }));
+    }
+    let n = libs.len();
     let mut ops: Vec<Value> = vec![];
     let mut visible: BTreeMap<String, Visible> = BTreeMap::new();
     let with_base = rng.chance(2, 3);
@@ -653,7 +702,7 @@ fn setup_sandbox(case: &Value, libs: &[Value]) -> Sandbox {
     std::fs::create_dir_all(cwd.join("lib")).unwrap();
     write_world(&prog, libs);
     // decoys in the working directory: every possible library name
-    for s in SHORTS.iter().chain(["zz"].iter()) {
+    for s in SHORTS.iter().chain(["zz", "bare"].iter()) {
         std::fs::write(cwd.join("lib").join(format!("{}.sld", s)), decoy_source(s)).unwrap();
     }
     std::env::set_current_dir(&cwd).expect("chdir to decoy directory");
